@@ -137,5 +137,8 @@ def check(pm: ProgramModel, ctx: Ctx) -> None:
         for cls_ in ("space", "punct", "unicode", "opword", "keyword"):
             validate(ctx, pm, writer, f"{P}-ONEENC", f"name:{cls_}", name_model(mb, NAME_CLASSES[cls_]),
                      f"feature named {NAME_CLASSES[cls_]!r}", fragment=(writer == "SPLOTWriter"))
+        from ..codec import export_models
+        for key_, m_, what_ in export_models(mb, [op_ for op_ in BINARY_LOGICAL if op_ not in ("XOR", "EQUIVALENCE")]):
+            validate(ctx, pm, writer, f"{P}-COVER" if not m_._f["ctcs"] else f"{P}-CTC", f"large:{key_}", m_, what_)
         ctx.analysed[f"{P}:kind-classes"] = ndone
     ctx.floor("C10", "obligations", len(ctx.obligations), 80)
